@@ -1,8 +1,7 @@
 #!/usr/bin/env python3
-"""Regenerate the build glue from what is present in coq/theories:
-   coq/_CoqProject, coq/extract/Extract.v, runner/dispatch.ml.
-   A property takes part in extraction iff coq/theories/Cxx_Wire.v exists and
-   defines cxx_run / cxx_agree / cxx_holds."""
+"""Regenerate coq/_CoqProject from the files present (theories/*.v, gen/*.v) and
+print the ids that have a wire file (coq/theories/Cxx_Wire.v defining
+cxx_run / cxx_agree / cxx_holds)."""
 import os, re, sys, glob
 
 ROOT = os.path.dirname(os.path.dirname(os.path.abspath(__file__)))
@@ -25,41 +24,22 @@ def write_if_changed(path, content):
     os.makedirs(os.path.dirname(path), exist_ok=True)
     try:
         if open(path).read() == content:
-            return
+            return False
     except FileNotFoundError:
         pass
     with open(path, "w") as fh:
         fh.write(content)
+    return True
 
 def main():
-    ids = wire_ids()
     vs = sorted(os.path.basename(p) for p in glob.glob(os.path.join(TH, "*.v")))
     gens = sorted(os.path.basename(p) for p in glob.glob(os.path.join(ROOT, "coq", "gen", "*.v")))
-    proj = ["-Q theories Gogu", "-Q gen GoguGen", "-arg -w", "-arg -notation-overridden,-deprecated-hint-without-locality,-deprecated-instance-without-locality", ""]
+    proj = ["-Q theories Gogu", "-Q gen GoguGen", "-arg -w",
+            "-arg -notation-overridden,-deprecated-hint-without-locality,-deprecated-instance-without-locality", ""]
     proj += ["theories/" + v for v in vs]
     proj += ["gen/" + v for v in gens]
     write_if_changed(os.path.join(ROOT, "coq", "_CoqProject"), "\n".join(proj) + "\n")
-
-    ex = ["(* GENERATED by tools/gen_glue.py — do not edit. *)",
-          "Require Extraction.", "Require ExtrOcamlBasic.",
-          "Extraction Language OCaml."]
-    for pid in ids:
-        ex.append("From Gogu Require %s_Wire." % pid)
-    names = []
-    for pid in ids:
-        low = pid.lower()
-        names += ["%s_Wire.%s_%s" % (pid, low, s) for s in ("run", "agree", "holds")]
-    ex.append('Extraction "models.ml" ' + "\n  ".join(names) + ".")
-    write_if_changed(os.path.join(ROOT, "coq", "extract", "Extract.v"), "\n".join(ex) + "\n")
-
-    d = ["(* GENERATED by tools/gen_glue.py — do not edit. *)",
-         "let table : (string * ((Models.z list -> Models.z list) * (Models.z list -> Models.z list -> bool) * (Models.z list -> Models.z list -> bool))) list = ["]
-    for pid in ids:
-        low = pid.lower()
-        d.append('  ("%s", (Models.%s_run, Models.%s_agree, Models.%s_holds));' % (pid, low, low, low))
-    d.append("]")
-    write_if_changed(os.path.join(ROOT, "runner", "dispatch.ml"), "\n".join(d) + "\n")
-    print("glue: wire ids =", " ".join(ids))
+    print(" ".join(wire_ids()))
 
 if __name__ == "__main__":
     main()
